@@ -141,7 +141,7 @@ KeywordSelf == k > 0 => \A i \in 1..Len(Kws) : \A form \in {Kws[i], UpperStr(Kws
                    LET b == BestKw(form, Kws, 1, <<0, 1>>, 0) IN b # 0 /\ Kws[b] = Kws[i]
 
 Dump == k > 0 => PrintT(<<"VEC", ToJson([key |-> Table[k].key, kind |-> D.kind, prop |-> D.prop,
-                                 first |-> IF D.alts = <<>> THEN "" ELSE Plain(D.alts[1], 1),
+                                 first |-> IF D.alts = <<>> THEN "" ELSE Plain(D.alts[1], 1), firstraw |-> IF D.alts = <<>> THEN "" ELSE D.alts[1],
                                  nalts |-> Len(D.alts), body |-> D.body, keywords |-> Kws, fnkeywords |-> FnKeywords(D.alts),
                                  quotedField |-> FieldInQuotes(D.body, 1, "")])>>)
 =============================================================================
